@@ -22,7 +22,7 @@ ASSUMPTIONS = [
 ]
 TRUSTED = ["correspondence harness harness/h_buffers.c + tools/lib/vf.py (values returned by get, size/empty/full, both iterator "
            "sequences after every operation)"]
-DESIGN_REF = "DESIGN.md section 8, C19"
+DESIGN_REF = "DESIGN.md section 0.2 (as built) and section 8, C19"
 TECHNIQUE = "Lean 4 refinement proof (ring layout refines a bounded queue for every capacity and history; iterator theorems) + differential correspondence of model vs. C"
 LEVEL_TEXT = ("Machine-checked proof: for every capacity >= 1 and every list of put/get/clear/override operations the Lean model of the "
               "RING_BUFFER macros keeps its representation invariant, never indexes outside the array and is observationally equal to a "
